@@ -1000,6 +1000,52 @@ func init() {
 		}
 		return fmt.Sprintf("%s %s %d %s %s", d64(y), optI64(r.n), L, optI64(r.cons), wf64str(y))
 	})
+	// rdfail64 y entry x cut v… : the first `cut` bytes of x's serialization are decoded into the previously used bitmap y (must
+	// fail); y is then used further and validated, and finally discarded (the 64-bit sibling of rdfail)
+	reg("rdfail64", func(e *env, a []string) string {
+		need(a, 4)
+		y := e.b64(a[0])
+		x := e.b64(a[2])
+		if !entries64[a[1]] {
+			panic(skipErr{"bad entry"})
+		}
+		bs, err := x.ToBytes()
+		if err != nil {
+			return "err:serialize"
+		}
+		cut := int(u64(a[3]))
+		if cut >= len(bs) {
+			panic(skipErr{"cut beyond the stream"})
+		}
+		r := decode64(y, a[1], append([]byte(nil), bs[:cut]...))
+		delete(e.bm64, a[0])
+		if r.class == "ok" {
+			return "accepted"
+		}
+		if r.class != "err" {
+			return r.class
+		}
+		res := func() (out string) {
+			defer func() {
+				if p := recover(); p != nil {
+					out = "panic-on-use:" + spaceless(fmt.Sprint(p))
+				}
+			}()
+			for _, t := range a[4:] {
+				v := u64(t)
+				y.Remove(v)
+				y.Add(v ^ 1)
+				y.RemoveRange(v, v+3)
+				_ = y.GetCardinality()
+				_ = y.ToArray()
+			}
+			if verr := y.Validate(); verr != nil {
+				return "invalid-after-use:" + spaceless(verr.Error())
+			}
+			return "ok"
+		}()
+		return "err " + res
+	})
 	reg("dec64", func(e *env, a []string) string {
 		// dec64 y <entry> <hex> [reuse]  ->  "ok <n> <wf> <dump>" | "err" | panic:.. | fatal:..
 		need(a, 3)
